@@ -123,6 +123,7 @@ def body(chk):
         st0, sols, _ = w.catalogue(scalar)
         names = [s['name'] for s in sols]
         finit = S.api_fn(w, 'masa_init', scalar, 'std::string, std::string')
+        ptr0, ents0 = R.snapshot(w, st, scalar)
         paths = w.ex.explore(st, lambda ex: ex.call(finit, [S.new_string(ex, H), S.new_string(ex, NAME)]), 4 * len(names) + 8)
         chk.functions.add(finit)
         bad, seen = [], set()
@@ -134,10 +135,15 @@ def body(chk):
             hit = [[x for x in c.a if x.op == 'str'][0].p for c, b in eqs if b]
             misses = [[x for x in c.a if x.op == 'str'][0].p for c, b in eqs if not b]
             if p['terminal'] is not None:
-                # no match: every catalogue name must have been compared and rejected (fatal-error discipline itself is C16)
+                # no match: every catalogue name must have been compared and rejected, and NOTHING is registered
+                # (the error discipline itself -- message, status, exception build -- is C16)
+                ptr1, ents1 = R.snapshot(w, p['st'], scalar)
                 if hit or sorted(misses) != sorted(names):
                     bad.append(pc)
                     why = 'fatal although the normalised name matched %r' % hit
+                elif (ptr1, ents1) != (ptr0, ents0):
+                    bad.append(pc)
+                    why = 'a name that matches no catalogue entry changed the registry: %r -> %r' % (sorted(ents0), sorted(ents1))
                 continue
             if p['error'] is not None or len(hit) != 1:
                 bad.append(pc)
@@ -165,11 +171,13 @@ def resolution_replay(chk, scalar, why):
         import replay as rp
         cxx = rp.SCALAR_CXX[scalar]
         lines = ['masa_init<Scalar>(" My-Handle ","Euler_  1D--"); std::string n; masa_get_name<Scalar>(&n); printf("\\nR name %s\\n", n.c_str());',
+                 'int caught=0, ghost=0; try { masa_init<Scalar>("ghost","no_such_solution"); } catch(int e) { caught=1; } try { masa_select_mms<Scalar>("ghost"); ghost=1; } catch(int e) { ghost=0; } printf("R nothing_registered %d\\n", caught==1 && ghost==0);',
                  'masa_init<Scalar>("other","HEATEQ_2D-steady_ const"); masa_get_name<Scalar>(&n); printf("R name2 %s\\n", n.c_str());',
                  'masa_select_mms<Scalar>(" My-Handle "); masa_get_name<Scalar>(&n); printf("R back %s\\n", n.c_str());']
         src = '#include <masa.h>\n#include <cstdio>\n#include <string>\nusing namespace MASA;\ntypedef %s Scalar;\nint main(){\n%s\n return 0;}\n' % (cxx, '\n'.join(lines))
-        rc, out, err = chk.lib().run(src)
-        expect = ['R name euler_1d', 'R name2 heateq_2d_steady_const', 'R back euler_1d']
+        from replay import Lib
+        rc, out, err = Lib(chk.scratch, extra=('-DMASA_EXCEPTIONS',)).run(src)
+        expect = ['R name euler_1d', 'R nothing_registered 1', 'R name2 heateq_2d_steady_const', 'R back euler_1d']
         missing = [e for e in expect if e not in out]
         if missing:
             path = chk.save_replay(ob, dict(expected=expect, stdout=out[-1500:], why=why), src)
